@@ -26,8 +26,8 @@ BUDGET = {"quick": 50, "thorough": 420}
 RULE = "index k -> one routing cell + request sequence. Non-trivial = proxy involved with TLS or a refusal/close; distinct = distinct cell tuple."
 ASSUMPTIONS = ["a garbage CONNECT reply is not a status-coded refusal: any urllib3 error with an empty origin log is accepted there"]
 REQUIRED_PROBES = {
-    "quick": ["tunnel_ok", "forward_ok", "forward_https_optin", "optin_flag_without_effect", "prelude_forwarded_with_same_headers_object", "retunnel_refused_proxy_error", "shared_context_for_proxy_and_destination", "connect_refused_no_leak", "proxy_cert_bad_no_leak", "origin_cert_bad_no_request", "retunnelled_after_close", "ipv6_connect_bracketed", "tls_in_tls", "proxy_headers_kept_out_of_tunnel"],
-    "thorough": ["tunnel_ok", "forward_ok", "forward_https_optin", "optin_flag_without_effect", "prelude_forwarded_with_same_headers_object", "retunnel_refused_proxy_error", "shared_context_for_proxy_and_destination", "connect_refused_no_leak", "proxy_cert_bad_no_leak", "origin_cert_bad_no_request", "retunnelled_after_close", "ipv6_connect_bracketed", "tls_in_tls", "proxy_headers_kept_out_of_tunnel"],
+    "quick": ["tunnel_ok", "forward_ok", "forward_https_optin", "optin_flag_without_effect", "prelude_forwarded_with_same_headers_object", "retunnel_refused_proxy_error", "shared_context_for_proxy_and_destination", "connect_refused_no_leak", "proxy_cert_bad_no_leak", "origin_cert_bad_no_request", "retunnelled_after_close", "ipv6_connect_bracketed", "tls_in_tls", "proxy_headers_kept_out_of_tunnel", "impostor_with_proxys_certificate_refused"],
+    "thorough": ["tunnel_ok", "forward_ok", "forward_https_optin", "optin_flag_without_effect", "prelude_forwarded_with_same_headers_object", "retunnel_refused_proxy_error", "shared_context_for_proxy_and_destination", "connect_refused_no_leak", "proxy_cert_bad_no_leak", "origin_cert_bad_no_request", "retunnelled_after_close", "ipv6_connect_bracketed", "tls_in_tls", "proxy_headers_kept_out_of_tunnel", "impostor_with_proxys_certificate_refused"],
 }
 
 DEST_HOSTS = {"name": "origin.test", "ip4": "10.0.0.5", "ip6": "[fd00::5]", "upper": "Origin.Test"}
@@ -67,10 +67,18 @@ def gen(rng):
         cell["server_hostname"] = "origin.test"
         if ps == "https" and rng.random() < 0.5:
             cell["proxy_cert"] = "dest_name"
+    if ps == "http" and ds == "https" and not cell["forwarding"] and not cell["shared_ctx"] and cell["origin_cert"] == "ok" and rng.random() < 0.15:
+        # the proxy's identity keywords given although the proxy speaks plain http (legal, without effect there), and an impostor at
+        # the far end of the tunnel that presents exactly the certificate those keywords describe: they are the *proxy's* checks and
+        # say nothing about the destination, whose certificate must match the destination's name
+        cell["proxy_verify"] = rng.choice(["pin_match", "name_match"])
+        cell["origin_cert"] = "proxys_own"
     if ps == "https" and cell["proxy_cert"] == "ok" and not cell["shared_ctx"] and rng.random() < 0.4:
         # the proxy's own identity checks beyond the chain: a pinned fingerprint (of the certificate it serves, or of another one
         # from the same trusted CA) and an asserted name (its own, or another)
         cell["proxy_verify"] = rng.choice(["pin_match", "pin_other", "pin_other", "name_match", "name_other"])
+        if cell["proxy_verify"] in ("pin_match", "name_match") and ds == "https" and not cell["forwarding"] and cell["origin_cert"] == "ok" and rng.random() < 0.4:
+            cell["origin_cert"] = "proxys_own"  # (as above, behind an https proxy that passes its own checks)
     return {"property": ID, "cell": cell}
 
 
@@ -115,7 +123,7 @@ def run(sc: dict) -> Result:
             ex["close_delay"] = 0.5
         exchanges.append(ex)
     w = W.World({"connects": connects, "exchanges": exchanges})
-    origin_cert = {"ok": "any", "bad_issuer": "bad_any", "mismatch": "other"}[c["origin_cert"]]
+    origin_cert = {"ok": "any", "bad_issuer": "bad_any", "mismatch": "other", "proxys_own": "proxy"}[c["origin_cert"]]
     origin_tls = []
 
     def tunnel_factory(world, chan, target):
@@ -280,6 +288,8 @@ def run(sc: dict) -> Result:
                         res.bad(f"wrong_error:{type(H.root_reason(o[1])).__name__}", repr(o[1])[:160])
                 if not res.violations:
                     res.probes["origin_cert_bad_no_request"] += 1
+                    if c["origin_cert"] == "proxys_own":
+                        res.probes["impostor_with_proxys_certificate_refused"] += 1
             else:
                 # clean tunnel: every request origin-form inside a tunnel whose TLS name is the destination's
                 for q in at_origin:
